@@ -186,3 +186,12 @@ c40_threshold(G, Max, T) :-
 :- dynamic(c09_l/1).
 c09_log(T) :- assertz(c09_l(T)).
 c09_call(G) :- catch(G, error(existence_error(procedure, _), _), fail).
+
+% ---------------------------------------------------------------------------
+% C12 helpers
+% ---------------------------------------------------------------------------
+:- dynamic(c12_l/1).
+c12_mark(I) :- bb_get(c12_log, L), bb_put(c12_log, [I|L]), assertz(c12_l(I)).
+c12_reset :- bb_put(c12_log, []), retractall(c12_l(_)).
+c12_marks(Ms, As) :- bb_get(c12_log, L), reverse(L, Ms), findall(M, c12_l(M), As).
+c12_run(T, G, R) :- catch((findall(T, G, L), R = sols(L)), B, R = ball(B)).
